@@ -98,6 +98,57 @@ def candidates(pre, opcode, OPC, thorough=True):
     return [bytes(lead) + bytes(t) + b"\x00\x00" for t in tails]
 
 
+def check_encoding(enc, addr, ctx):
+    """decode -> render -> assemble -> decode again: text, lifted IL and a second round must agree."""
+    decode, OPCODES, ASM, TOK, ILF = ctx
+    ins = decode(enc, addr, OPCODES)
+    toks = ins.render()
+    text = text_for_assembler(toks, TOK)
+    shown = TOK.asm_str(toks)
+    fail = None
+    try:
+        out = ASM.Assembler().assemble(f".ORG 0x{addr:X}\n{text}\n")
+        ob = bytes(out.as_binary()) if len(out.segments) else b""
+    except Exception as e:  # noqa: BLE001
+        fail = ("assemble-fails", f"{type(e).__name__}: {str(e)[:160]}")
+        ob = None
+    if fail is None:
+        ins2 = decode(ob, addr, OPCODES) if ob else None
+        if ins2 is None or ins2.length() != len(ob):
+            fail = ("reassembled-bytes-do-not-decode", ob.hex())
+        else:
+            shown2 = TOK.asm_str(ins2.render())
+            if shown2 != shown:
+                fail = ("text-differs", f"{shown2!r}")
+            else:
+                il1, il2 = ILF(), ILF()
+                ins.lift(il1, addr)
+                ins2.lift(il2, addr)
+                if il_plain(il1.ils) != il_plain(il2.ils):
+                    fail = ("lifted-il-differs", ob.hex())
+                else:
+                    try:
+                        out3 = ASM.Assembler().assemble(f".ORG 0x{addr:X}\n{text_for_assembler(ins2.render(), TOK)}\n")
+                        ob3 = bytes(out3.as_binary())
+                        if ob3 != ob:
+                            fail = ("second-round-not-a-fixpoint", f"{ob.hex()} -> {ob3.hex()}")
+                    except Exception as e:  # noqa: BLE001
+                        fail = ("second-round-assemble-fails", str(e)[:120])
+    return dict(bytes=enc.hex(), text=shown, src=text, fail=fail)
+
+
+def replay(body):
+    """Native replay of one failing encoding (the check itself runs natively; this re-runs it alone)."""
+    model = body.get("model") or {}
+    if "bytes" not in model:
+        return 4, "no encoding recorded"
+    ARCH, decode, OPCODES, OPC, ASM, TOK, ILF = _setup()
+    r = check_encoding(bytes.fromhex(model["bytes"]), 0x1000, (decode, OPCODES, ASM, TOK, ILF))
+    if r["fail"]:
+        return 1, f"{r['bytes']}: {r['text']!r} (assembler source {r['src']!r}) -> {r['fail'][0]}: {r['fail'][1]}"
+    return 0, f"{r['bytes']}: {r['text']!r} round-trips natively"
+
+
 def unit(unit):
     t0 = time.time()
     ARCH, decode, OPCODES, OPC, ASM, TOK, ILF = _setup()
@@ -118,47 +169,14 @@ def unit(unit):
             continue
         seen[enc] = True
         evals += 1
-        ins = decode(enc, addr, OPCODES)
-        toks = ins.render()
-        text = text_for_assembler(toks, TOK)
-        shown = TOK.asm_str(toks)
-        fail = None
-        try:
-            out = ASM.Assembler().assemble(f".ORG 0x{addr:X}\n{text}\n")
-            ob = bytes(out.as_binary()) if len(out.segments) else b""
-        except Exception as e:  # noqa: BLE001
-            fail = ("assemble-fails", f"{type(e).__name__}: {str(e)[:160]}")
-            ob = None
-        if fail is None:
-            ins2 = decode(ob, addr, OPCODES) if ob else None
-            if ins2 is None or ins2.length() != len(ob):
-                fail = ("reassembled-bytes-do-not-decode", ob.hex())
-            else:
-                shown2 = TOK.asm_str(ins2.render())
-                if shown2 != shown:
-                    fail = ("text-differs", f"{shown2!r}")
-                else:
-                    il1, il2 = ILF(), ILF()
-                    ins.lift(il1, addr)
-                    ins2.lift(il2, addr)
-                    if il_plain(il1.ils) != il_plain(il2.ils):
-                        fail = ("lifted-il-differs", ob.hex())
-                    else:
-                        try:
-                            out3 = ASM.Assembler().assemble(f".ORG 0x{addr:X}\n{text_for_assembler(ins2.render(), TOK)}\n")
-                            ob3 = bytes(out3.as_binary())
-                            if ob3 != ob:
-                                fail = ("second-round-not-a-fixpoint", f"{ob.hex()} -> {ob3.hex()}")
-                        except Exception as e:  # noqa: BLE001
-                            fail = ("second-round-assemble-fails", str(e)[:120])
-        results.append(dict(bytes=enc.hex(), text=shown, src=text, fail=fail))
+        results.append(check_encoding(enc, addr, (decode, OPCODES, ASM, TOK, ILF)))
     failed = [r for r in results if r["fail"]]
     classes = {}
     for r in failed:
         import re
         shape = re.sub(r"0x[0-9A-Fa-f]+|\b[0-9A-F]{2,5}\b", "#", r["text"])
         classes.setdefault((r["fail"][0], shape), r)
-    obs = [dict(name=f"roundtrip:{k[0]}", status="failed", backend="enumeration", model=None,
+    obs = [dict(name=f"roundtrip:{k[0]}", status="failed", backend="enumeration", model=dict(bytes=v["bytes"]),
                 detail=f"{v['bytes']}: {v['text']!r} (source {v['src']!r}) -> {v['fail'][1]}") for k, v in sorted(classes.items())]
     return dict(unit=unit, status="ok", error=None, kinds={"candidates": len(cands), "accepted-encodings": evals, "failed": len(failed)},
                 obligations=evals, proved=evals - len(failed), failed=obs[:30], nfailed=len(failed), unknown=0,
